@@ -45,7 +45,7 @@ def shards(tier, seed):
 
 
 HN = ["sha1", "sha224", "sha256", "sha384", "sha512", "sha3_256", "md5", "blake2b_4", "blake2b_5", "blake2b_13", "blake2b_20", "blake2b_21",
-      "blake2b_32", "blake2b_33", "blake2b_47", "blake2b_64"]
+      "blake2b_32", "blake2b_33", "blake2b_47", "blake2b_64", "blake2b_person", "blake2s_salt", "blake2b_keyed32", "prefixed_sha256", "sha3_384", "lambda_sha1"]
 
 
 def check_k(ctx, n, d, hname, digest, retry, extra, cls):
@@ -113,7 +113,9 @@ def run(ctx, name, kind, **kw):
                 for retry, extra in ((0, b""), (1, b"xx")):
                     jobs.append(("generate_k", lambda n=n, d=d, hf=hf, dg=dg, retry=retry, extra=extra: rfc6979.generate_k(n, d, hf, dg, retry, extra), (),
                                  rfc6979_ref.generate_k(n, d, hf, dg, retry, extra)))
-        S.concurrent_purity(ctx, S.codes_of(rfc6979) + S.codes_of(ecdsa.util, {"number_to_string", "number_to_string_crop", "orderlen", "bit_length"}), jobs, rng, kw["runs"])
+        codes = S.codes_of(rfc6979) + S.codes_of(ecdsa.util, {"number_to_string", "number_to_string_crop", "orderlen", "bit_length"})
+        S.concurrent_purity(ctx, codes, jobs, rng, kw["runs"])
+        S.reentrant_purity(ctx, codes, jobs, rng, max(8, kw["runs"] // 10))
     elif kind == "curvevals":
         vals = []
         for c in lib.ALL_CURVES:
